@@ -18,7 +18,7 @@ PLAN = {
     "C08": [("h_c08.py", {"quick": 240, "thorough": 900}, set())],
     "C14": [("h_c14s.py", {"quick": 200, "thorough": 900}, {"sym_set_allowed_later_full", "sym_remove_instance0"}),
             ("h_c14.py", {"quick": 200, "thorough": 900}, {"allowed_later_equals_constructed3"} | {f"history3_first_{n}" for n in ("add_instance", "add_string", "remove_index", "remove_instance", "remove_index_list", "remove_instance_list", "set_allowed", "set_required", "remove_duplicates", "reindex", "add_from_file")})],
-    "C15": [("h_c15.py", {"quick": 150, "thorough": 900}, {"dup_remove_leaves_one_per_class4"})],
+    "C15": [("h_c15.py", {"quick": 420, "thorough": 1200}, {"dup_remove_leaves_one_per_class4"})],
 }
 
 
@@ -100,7 +100,7 @@ META = {
         rule="one condition = one CrossHair run to 'Confirmed over all paths' (or one command-line scenario compared with the model); distinct = distinct conditions",
     ),
     "C15": dict(
-        bounds={"symbolic labels": "lists of <=4 integer labels in [0,3] (every equality pattern of 4 reactions)", "real reactions": "lists of <=3 selected from a pool of 14 (permuted reactants/products, two electron spellings, windows differing in both bounds or in one bound only, differing type, 3-body)", "modes": ["default", "brief", "minimal", "short"]},
+        bounds={"symbolic labels": "lists of <=4 integer labels in [0,3] (every equality pattern of 4 reactions)", "real reactions": "lists of <=3 selected from a pool of 16 (permuted reactants/products, two electron spellings, windows differing in both bounds or in one bound only, differing type, 3-body)", "modes": ["default", "brief", "minimal", "short"]},
         assume=["(a) the hash table algorithm is exercised with stub reactions whose identity is a symbolic integer (fully symbolic, all paths exhausted)", "(b) real Reaction objects are picked by symbolic selectors and then run untraced: the solver enumerates every selection within the bound",
                 "string modes ('minimal','short') compare printed names: spelling-dependent by documentation"],
         rule="one condition = one CrossHair run to 'Confirmed over all paths'; distinct = distinct conditions confirmed",
